@@ -148,6 +148,16 @@ def run(ctx, prop):
             for a in B.analyse(ctx, case, b, r):
                 call = a["call"]
                 if call["stub"] == langs[0] and a["env"] is not None and call["val"] == 0:
+                    # a method whose argument array is not in canonical section order (the order
+                    # findings of C01-C03) cannot be delivered by a transport that walks the array
+                    # by its counts: there is no well-formed envelope to perturb
+                    mo_ = B.method_of(case, call["iface"], call["method"])
+                    if not a["pc"].get("optional"):
+                        mw_ = B.model_wire(ctx, case, call["iface"], mo_[1], a["plan"])
+                        secs_ = [int(x) for x in mw_.get("sections", "").split(",") if x]
+                        if secs_ != sorted(secs_):
+                            hist["skipped_noncanonical"] = hist.get("skipped_noncanonical", 0) + 1
+                            continue
                     sizes = [s.get("size", 0) for s in a["env"]["slots"] if s["c"] in ("bi", "bo")]
                     good[(call["iface"], call["method"])] = (a["env"]["op"], a["env"]["k"], sizes, a["pc"].get("optional", False))
             lines, meta = [], []
